@@ -18,6 +18,20 @@ def _expr(s: str) -> ast.AST:
 
 
 def run(ck: Check, repo: Repo) -> None:
+    # which distribution is projected: the one of the target network held at entry of learn(), evaluated on the next observations of the SAME (1-step or
+    # n-step) batch as reward and done.  These are the C08 obligations on RainbowDQN (batch coherence, soft update after the step); they are taken over here
+    from dataclasses import replace
+    from . import c08
+    sub8 = Check("C08", ck.tier, ck.repo_root)
+    sub8.known = []
+    c08.run(sub8, repo)
+    ck.rule("C18.7", "the source distribution and the Bellman-shifted support come from one batch and from the target network as held at entry of learn(): the 1-step, n-step "
+                     "and combined losses read observation, action, reward, next observation and done from the same sampled batch, and the soft update follows the optimizer "
+                     "step (obligations of C08.4 / C08.7 on RainbowDQN, shared with the C08 check)")
+    taken = [replace(o, rule="C18.7") for o in sub8.obs if o.rule in ("C08.4", "C08.7") and o.qualname.startswith("RainbowDQN")]
+    if len(taken) < 10:
+        raise AnalysisError(f"C18.7: only {len(taken)} obligations taken over from C08.4 / C08.7")
+    ck.obs.extend(taken)
     ck.not_decided += ["conservation of total mass and of the mean as numeric facts (needs sum p = 1 and exact arithmetic)",
                        "behaviour of DuelingDistributionalMLP's softmax clamp"]
     ck.trusted += ["Tensor.index_add_ accumulates into the receiver at the given flat indices and raises IndexError for an index outside the receiver"]
